@@ -113,6 +113,31 @@ func resolveVia(api int, db shared.DBNodeMap, n int) error {
 
 var apiNames = []string{"resolver.Resolve", "Resolver.Resolve"}
 
+// c11Quantities: a line that takes a recipe 0 times (or a negative number of times) is a reference like any other.
+// scheme 0: every quantity 1; 1: every reference to a recipe 0, plain elements 1; 2: alternating 0 and -2.
+func c11Quantities(book absBook, scheme int) {
+	defined := map[string]bool{}
+	for _, r := range book {
+		defined[r.Name] = true
+	}
+	for i := range book {
+		for j := range book[i].Ings {
+			switch scheme {
+			case 1:
+				if defined[book[i].Ings[j].Name] {
+					book[i].Ings[j].Val = 0
+				}
+			case 2:
+				if (i+j)%2 == 0 {
+					book[i].Ings[j].Val = 0
+				} else {
+					book[i].Ings[j].Val = -2
+				}
+			}
+		}
+	}
+}
+
 func init() { propChecks["C11"] = checkC11 }
 
 func checkC11(w *Worker) {
@@ -187,6 +212,7 @@ func checkC11(w *Worker) {
 		}
 		n := 1 + x.Choose(k+2, "input:maxdepth")
 		api := x.Choose(2, "input:api")
+		c11Quantities(book, x.Choose(2, "input:quantities")*2)
 		c11Body(x, book, n, api, "graph")
 	})
 	// acyclic books on 4 (thorough 5) recipes in topological numbering: every subset of the later
@@ -222,6 +248,7 @@ func checkC11(w *Worker) {
 			x.Case("skip-empty", false)
 			return
 		}
+		c11Quantities(book, x.Choose(3, "input:quantities"))
 		c11Body(x, book, n, api, "acyclic")
 	})
 	// the limit as the user gives it: --maxdepth, HR_MAXDEPTH or the configuration file, through the real commands
